@@ -73,7 +73,7 @@ class C02:
                     fails.append(F("C02.raised", t=t, nbunch=nb, got=q)); continue
                 if nb is not None and len(nb) == 0:
                     continue      # an empty nbunch is indistinguishable from "all nodes" for several entry points
-                fails += oracles.c02(bool(case["cls"]), q, pres, t, set(nodes), attrs, nb)
+                fails += oracles.c02(bool(case["cls"]), q, pres, t, set(nodes), attrs, nb, dump["ids"])
         return fails
 
     @staticmethod
